@@ -79,6 +79,14 @@ def main():
                     distinct_keys=[(e["op"], str(e.get("path")), str(e.get("x")), str(e.get("docs", e.get("ret")))) for e in evs])
         for e in evs[7:3000:700]:
             c.sample(e)
+    # pointer-to-value: every read through a pointer is the read of its target (OraclePtr, QValue's coercion rules)
+    pp = os.path.join(c.out, "ptr.ndjson")
+    rc, out, err = c.run([asan, "ptr", str(c.seed), "60000" if c.thorough else "6000", pp], timeout=900)
+    if c.harness_ok("value-pointer-views", rc, out, err):
+        c.oracle("OraclePtr", pp, "OraclePtr", lambda e: "value pointer-to-value read differs from its target t=%s views=%s gi=%s gd=%s gb=%s nt=%s size=%s/%s eq=%s" % (
+            pdoc(e["t"]), [pdoc(v) for v in e["views"]], e["gi"], e["gd"], e["gb"], e["nt"], e["size"], e["tsize"], e["eq"]), timeout=1200)
+    if os.path.exists(pp):
+        os.remove(pp)
     c.finish(rule="spec->code: every (state, action-label) pair of the QValue graph (2 roots, 4 paths incl. a two-step path, 4 literals, "
                   "weight <= %d, depth <= 2) on two real Value<char> roots, overloads rotated; code->spec: random histories (paths <= 3 "
                   "steps over 4 keys incl. the empty key and 3 indices, literals of every kind, copy/move/merge/append between roots, reads "
